@@ -402,24 +402,13 @@ Section Outer.
     | GpConst t => Ok (VVariant "Const" [("0", VToks t)])
     end.
 
-  Definition params_mirror (tc : tpconv) (ps : list gparam) : res (list value) :=
-    let rs := map (param_result tc) ps in
-    match first_panic rs with
-    | Some m => Panic m
-    | None =>
-        match errs_of rs with
-        | [] => Ok (oks rs)
-        | es => match multiple es with POk e => Err e | PPanic m => Panic m end
-        end
-    end.
-
   Fixpoint from_generics (gc : gconv) (g : generics) : res value :=
     match gc with
     | GcSyn => Ok (generics_toks g)
     | GcUnit => Ok VUnit
     | GcMirror tc =>
-        map_ok (fun vs => VStruct [("params", VList vs); ("where_clause", opt_toks (g_where g))])
-               (params_mirror tc (g_params g))
+        accumulate (map (param_result tc) (g_params g))
+                   (fun vs => VStruct [("params", VList vs); ("where_clause", opt_toks (g_where g))])
     | GcResult gc' =>
         match from_generics gc' g with
         | Ok v => Ok (VResOk v)
